@@ -309,7 +309,8 @@ CHECKS["C10"]["text"] = CHECKS["C10"]["text"].replace(
 CHECKS["C11"]["text"] = CHECKS["C11"]["text"].replace(
     "the tree); wrapped values,",
     "the tree); what the writer emits for a container is read back record by record (the JSON half of 'writing d and loading "
-    "the result gives d again', container level); wrapped values,")
+    "the result gives d again', container level), and the PROV-XML element written for a record is loaded by the model of the "
+    "library's reader as that record (C11_written_xml_record_reloads, record level); wrapped values,")
 CHECKS["C02"]["text"] = CHECKS["C02"]["text"].replace(
     "Element-tree assembly (nsmap, child order, subtype element names, bundles) is not modelled (partial).",
     "Record level, element names: for every record class and attribute list the writer takes out exactly one prov:type pair "
@@ -325,7 +326,11 @@ CHECKS["C06"]["text"] = CHECKS["C06"]["text"].replace(
     "ProvnDocProofs.v): the whole text printed for a document without bundles — document/endDocument frame, default and prefix "
     "declarations, blank line, one line per record — is read by the specification's reader, with the fuel it derives from the "
     "length of the text (C06_fuel_suffices: that fuel is enough for the lexer on any text), as exactly the document's records in "
-    "order under the table its declarations build. Bundles inside documents are not proved (partial):")
+    "order under the table its declarations build; with bundles (C06_document_bundles, ProvnBundleProofs.v): every bundle's "
+    "frame, declarations and record lines, one level deeper, are read as the bundle under the URI its identifier denotes with "
+    "the bundle's declarations in scope, after the document's records — for every document whose containers hold at least one "
+    "record and whose names the reader's table resolves. Containers without records and the documents of findings C06-F1..F3 "
+    "(partial):")
 CHECKS["C06"]["technique"] = ("Coq proofs (escape/unescape inversion; value-, record- and document-level printer -> spec lexer -> spec parser = "
                               "content) + extracted grammar-based reader executed on the implementation's text")
 CHECKS["C10"]["text"] = CHECKS["C10"]["text"].replace(
@@ -361,16 +366,19 @@ CHECKS["C07"]["text"] = CHECKS["C07"]["text"].replace(
     "URI, language-tagged string comes back as itself, a qualified name and the datatype of a foreign literal as names of the same "
     "URI, under the attribute of the same URI (C07_value_*, C07_attribute_roundtrip, C07_name_*), given that full URIs resolve in "
     "the reader's manager — proved (C07_uri_resolves) when the URI's scheme is not a declared prefix and a declared namespace starts "
-    "the URI; the first premise is finding C07-F3 (refuted in the model without it). In Rdfq.v values are opaque tokens; the assembly "
-    "of elements and bundles (named graphs) is not modelled; rdflib/TriG are an oracle (the term read is the term written, measured).")
+    "the URI; the first premise is finding C07-F3 (refuted in the model without it); element level (C07_element_roundtrip): the "
+    "triples written for all pairs of an element, decoded in the document's manager and handed to new_record, give exactly one record "
+    "of that kind, identified by a name of the subject's URI, holding the pairs read back. In Rdfq.v values are opaque tokens; "
+    "bundles (named graphs) and the grouping of a graph's triples by subject are not modelled; rdflib/TriG are an oracle (the term read "
+    "is the term written, measured).")
 CHECKS["C07"]["text"] = CHECKS["C07"]["text"].replace(
     "for every shape document.",
-    "for every shape document; model triple and model read-back vs the implementation's for 350 attribute x value cases, the same "
-    "cases judged by the direct oracle.")
+    "for every shape document; model triple and model read-back vs the implementation's for 350 attribute x value cases (the same "
+    "cases judged by the direct oracle) and for 150 (thorough: 1500) generated elements with several attributes.")
 CHECKS["C07"]["technique"] = ("Coq proofs: by computation over finite domains (predicates; relation shapes and pairs), unbounded at value "
                               "and attribute level (literal mapping, URI resolution) + structural and value correspondences "
                               "+ round-trip oracle with shuffled quad orders")
-assert "C07_value_" in CHECKS["C07"]["text"] and "350 attribute" in CHECKS["C07"]["text"]
+assert "C07_value_" in CHECKS["C07"]["text"] and "350 attribute" in CHECKS["C07"]["text"] and "C07_element_roundtrip" in CHECKS["C07"]["text"]
 
 
 def main():
